@@ -161,7 +161,8 @@ func (d *Database) FindEmitterSequenceGap(prefix vaa.VAAID) (resp []uint64, firs
 	if err = d.db.View(func(txn *badger.Txn) error {
 		it := txn.NewIterator(badger.DefaultIteratorOptions)
 		defer it.Close()
-		prefix := prefix.EmitterPrefixBytes()
+		// terminate the target chain segment, otherwise target chain 2 also matches 25, 255, ...
+		prefix := append(prefix.EmitterPrefixBytes(), '/')
 
 		// Find all sequence numbers (the message IDs are ordered lexicographically,
 		// rather than numerically, so we need to sort them in-memory).
